@@ -38,6 +38,7 @@ class FnSpec:
         self.attrs = []             # extra attributes
         self.derefs = []            # (ident, op): R9 explicit deref of a reference operand of a bit operator
         self.r12 = False            # X.iter().any(c) -> vx_any(X.as_slice(), c)
+        self.r12map = {}            # receiver text -> helper name for X.into_iter().filter(c).collect()
 
 
 class ItemSpec:
@@ -131,6 +132,9 @@ def parse_vspec(path):
             cur_fn.derefs.append((a, b))
         elif kw == "r12":
             cur_fn.r12 = True
+        elif kw == "r12map":
+            a, b = rest.split()
+            cur_fn.r12map[a] = b
         elif kw == "closure":
             m = re.match(r"(\d+)\s+(.*)$", rest)
             body = []
@@ -198,6 +202,13 @@ class Edits:
         eds = sorted(enumerate(self.edits), key=lambda e: (e[1][0], e[1][3], e[0]))
         out = []
         cur = 0
+        # an edit that lies inside a region replaced by a larger edit is subsumed by it
+        spans = [(s, e) for _, (s, e, t, _p) in eds if e > s]
+        def subsumed(s, e):
+            if s == e:
+                return any(a < s < b for a, b in spans)
+            return any(a <= s and e <= b and (a, b) != (s, e) for a, b in spans)
+        eds = [x for x in eds if not subsumed(x[1][0], x[1][1])]
         for _, (s, e, t, _p) in eds:
             if s < cur:
                 raise SystemExit("overlapping edits at offset %d: %r" % (s, t[:60]))
@@ -373,8 +384,32 @@ def process_fn(toks, it, fs: FnSpec, qual, ed: Edits, log, unit_in_trait_impl):
                 recv = src[toks[sg_idx[jj]].pos:toks[sg_idx[ii - 1]].end]
                 ed.replace(toks[sg_idx[jj]].pos, toks[sg_idx[ii + 6]].end, f"vx_any({recv}.as_slice(), ")
                 cnt += 1
+        # X.into_iter().filter(c).collect() -> vx_filter_collect(X, c)
+        for ii in range(len(sg_idx) - 6):
+            seq = [toks[sg_idx[ii + d]].text for d in range(7)]
+            if seq == [".", "into_iter", "(", ")", ".", "filter", "("]:
+                jj = ii - 1
+                if jj < 0 or toks[sg_idx[jj]].kind != "ident":
+                    raise LostAnchor(f"{qual}: R12: unsupported receiver before .into_iter().filter(")
+                while jj - 2 >= 0 and toks[sg_idx[jj - 1]].text == "." and toks[sg_idx[jj - 2]].kind == "ident":
+                    jj -= 2
+                recv = src[toks[sg_idx[jj]].pos:toks[sg_idx[ii - 1]].end]
+                open_paren = sg_idx[ii + 6]
+                close_paren = match_close(toks, open_paren)
+                a1 = next_sig(toks, close_paren + 1, hi)
+                tail = []
+                k2 = a1
+                while k2 is not None and len(tail) < 4:
+                    tail.append(k2)
+                    k2 = next_sig(toks, k2 + 1, hi)
+                if [toks[x].text for x in tail] != [".", "collect", "(", ")"]:
+                    raise LostAnchor(f"{qual}: R12: .filter(..) not followed by .collect()")
+                helper = fs.r12map.get(recv.replace(" ", ""), "vx_filter_collect")
+                ed.replace(toks[sg_idx[jj]].pos, toks[open_paren].end, f"{helper}({recv}, ")
+                ed.replace(toks[tail[0]].pos, toks[tail[3]].end, "")
+                cnt += 1
         if cnt == 0:
-            raise LostAnchor(f"{qual}: R12: no `.iter().any(` found")
+            raise LostAnchor(f"{qual}: R12: no `.iter().any(` / `.into_iter().filter(..).collect()` found")
         log["rewrites"].append({"rule": "R12", "fn": qual, "before": "X.iter().any(c)", "after": "vx_any(X.as_slice(), c)", "count": cnt})
     # loops
     if fs.loops:
@@ -493,6 +528,12 @@ def gen_file(ws, fsx: FileSpec, log):
                         k = c
                 k += 1
             log["rewrites"].append({"rule": "R1", "fn": isp.header, "before": "pub(crate)", "after": "pub", "count": cnt})
+        if "R1p" in isp.flags:
+            # private item -> pub (specs of pub functions must be able to name it)
+            has_vis = any(toks[k].kind == "ident" and toks[k].text == "pub" for k in range(it.first, it.kw))
+            if not has_vis:
+                ed.insert(toks[it.kw].pos, "pub ", prio=10)
+                log["rewrites"].append({"rule": "R1", "fn": isp.header, "before": "<private item>", "after": "pub <item>", "count": 1})
         if "R1f" in isp.flags and it.kind == "struct" and it.body_open >= 0:
             # private named fields -> pub (needed for field access in specs of public fns)
             k = it.body_open + 1
@@ -643,10 +684,12 @@ def main():
         # inner attributes must come first; existing file may start with comments / #![..]: prepend is fine
         root = head + root
         if u.prelude:
-            pp = os.path.join(os.path.dirname(os.path.abspath(spec_path)), os.path.basename(u.prelude))
-            if not os.path.exists(pp):
-                pp = os.path.join(os.path.dirname(os.path.dirname(os.path.abspath(spec_path))), u.prelude)
-            ptxt = open(pp).read()
+            specdir = os.path.dirname(os.path.abspath(spec_path))
+            ptxt = "// generated by vx/gen.py from prelude fragments: " + u.prelude + "\n"
+            for frag in u.prelude.split():
+                pp = os.path.join(specdir, os.path.basename(frag))
+                name = os.path.splitext(os.path.basename(frag))[0]
+                ptxt += f"pub mod {name} {{\n" + open(pp).read() + f"\n}}\npub use {name}::*;\n"
             dst = os.path.join(os.path.dirname(rootp), "vx_prelude.rs")
             open(dst, "w").write(ptxt)
             root += "\n#[allow(unused_imports, dead_code, unused_variables, non_snake_case)]\npub mod vx_prelude;\n"
